@@ -6,7 +6,7 @@ from unittest import mock
 import numpy as np
 import torch
 
-from vlib import COQ, CoqError, cb, cl, cln, cn, co, cp, coq_eval_bools, coq_eval_print, exc_kind, shrink
+from vlib import COQ, CoqError, cb, cl, cln, cn, co, cp, cz, coq_eval_bools, coq_eval_print, exc_kind, shrink
 
 IMPORTS = "From PV Require Import C13.Model C13.Spec.\nLocal Open Scope nat_scope.\n"
 MODES = ["raise", "drop", "uneven", "ignore"]
@@ -352,6 +352,14 @@ def _plain_term(case, out, fn, with_side):
         parts.append(cb(not rel and not mod))
     elif case["kind"] == "sequential":
         parts.append(f"src_seq_order_check {cn(case['n'])}")
+    else:
+        # the translated EpochRandomSampler.get_samples_for_epoch_ignoring_distributed, NumPy's permutation of n items
+        # for (seed, e0+k) as the oracle's answer, against what the implementation returned for that epoch
+        seed = _seed_of(case, out)
+        for r, o in enumerate(out):
+            if isinstance(o, list):
+                parts.append(f"src_rand_order_check {cn(case['n'])} {_dist(case, r)} {CMODE[case['mode']]} {cn(case['e0'])} "
+                             f"({cz(seed)}) {cn(case['e0'] + case['k'])} {_cln(oo[-1])} {_cln(o[3]['ignoring'])}")
     return f"(let vords := {cl([_cln(o) for o in oo])} in " + " && ".join(parts) + ")"
 
 
